@@ -234,9 +234,10 @@ func (fc *FuncCtx) execCall(fr *Frame, st *State, site ssa.Instruction, c *ssa.C
 	}
 	short, full = fn.Name(), fn.String()
 	// intrinsics
-	if r, ok := fc.intrinsic(fr, st, fn, c, args, pos); ok {
+	if fc.isIntrinsic(fn) {
 		fc.atCallClauses(fr, st, site, short, full, extra, pos)
 		fc.bumpCalls(st, short)
+		r, _ := fc.intrinsic(fr, st, fn, c, args, pos)
 		return r
 	}
 	con := fc.eng.contractFor(fn)
@@ -244,6 +245,12 @@ func (fc *FuncCtx) execCall(fr *Frame, st *State, site ssa.Instruction, c *ssa.C
 	fc.bumpCalls(st, short)
 	if con != nil && con.Flags["inline"] == "" {
 		return mkResult(fc.callWithContract(fr, st, con, fn, c, nil, args, pos, full))
+	}
+	if fn.Synthetic == "package initializer" {
+		ms := &ModSet{keys: map[string]bool{}}
+		fc.eng.fnMod(ms, fn)
+		fc.applyModSet(st, ms)
+		return mkResult(nil)
 	}
 	// no contract: inline small in-repo functions / closures
 	if fc.eng.inRepo(fn) && len(fn.Blocks) > 0 {
@@ -312,6 +319,11 @@ func (fc *FuncCtx) callWithContract(fr *Frame, st *State, con *Contract, fn *ssa
 		vars[p.Name] = all[i]
 	}
 	calleeUnit := &calleeScope{con: con}
+	for _, as := range con.Assumes {
+		ev := fc.newEnvVars(st, st, vars, calleeUnit)
+		fc.u.fact(st.pc, ev.evalBool(as.E))
+		fc.u.Assumptions["ghost-state well-formedness assumed for "+con.Key+": "+as.Src] = true
+	}
 	// requires
 	for i, rq := range con.Requires {
 		ev := fc.newEnvVars(st, st, vars, calleeUnit)
@@ -459,6 +471,7 @@ func canonTypeName(t string) string {
 // inlineCall executes the callee body in place.
 func (fc *FuncCtx) inlineCall(fr *Frame, st *State, fn *ssa.Function, con *Contract, args []Value, bindings []Value, pos token.Pos) []Value {
 	fr2 := fc.newFrame(fn, con, fr.prefix+">"+fn.Name())
+	fr2.noSafety = con == nil || fr.noSafety
 	for i, p := range fn.Params {
 		if i < len(args) {
 			fr2.vals[p] = args[i]
@@ -734,6 +747,18 @@ func (fc *FuncCtx) execCopy(fr *Frame, st *State, c *ssa.CallCommon, args []Valu
 }
 
 // ---------- intrinsics: locks, atomics ----------
+
+func (fc *FuncCtx) isIntrinsic(fn *ssa.Function) bool {
+	switch fn.String() {
+	case "(*sync.Mutex).Lock", "(*sync.RWMutex).Lock", "(*sync.RWMutex).RLock", "(*sync.Mutex).Unlock", "(*sync.RWMutex).Unlock", "(*sync.RWMutex).RUnlock",
+		"sync/atomic.AddUint64", "sync/atomic.AddInt64", "sync/atomic.AddUint32", "sync/atomic.AddInt32",
+		"sync/atomic.LoadUint64", "sync/atomic.LoadInt64", "sync/atomic.LoadUint32", "sync/atomic.LoadInt32",
+		"sync/atomic.StoreUint64", "sync/atomic.StoreInt64", "sync/atomic.StoreUint32", "sync/atomic.StoreInt32",
+		"math.Ceil", "math.Floor":
+		return true
+	}
+	return false
+}
 
 func (fc *FuncCtx) intrinsic(fr *Frame, st *State, fn *ssa.Function, c *ssa.CallCommon, args []Value, pos token.Pos) (Value, bool) {
 	full := fn.String()
